@@ -168,6 +168,10 @@ func (r *Receiver) SegmentHandlerFunc(w http.ResponseWriter, req *http.Request) 
 			}
 			seg := chunk.Segments[0]
 			moof := seg.Fragments[0].Moof
+			if moof == nil || moof.Mfhd == nil || moof.Traf == nil || moof.Traf.Tfhd == nil ||
+				moof.Traf.Tfdt == nil || moof.Traf.Trun == nil {
+				return fmt.Errorf("chunk %d lacks a moof, mfhd, traf, tfhd, tfdt or trun box", rsd.chunkNr)
+			}
 			trd, ok := ch.getTrData(trName)
 			if !ok {
 				return fmt.Errorf("failed to find track data trName: %s", trName)
@@ -522,6 +526,10 @@ func processInitSegment(log *slog.Logger, ch *channel, s stream, data []byte, is
 	if init == nil || init.Moov == nil {
 		return nil, fmt.Errorf("no init segment in the data")
 	}
+	err = checkInitStructure(init)
+	if err != nil {
+		return nil, fmt.Errorf("init segment: %w", err)
+	}
 	err = ch.addInitDataAndUpdateTimescale(s, init)
 	if err != nil {
 		return nil, fmt.Errorf("failed to addInitData: %w", err)
@@ -532,6 +540,33 @@ func processInitSegment(log *slog.Logger, ch *channel, s stream, data []byte, is
 		return nil, fmt.Errorf("failed to encode wvtt init segment: %w", err)
 	}
 	return sw.Bytes(), nil
+}
+
+// checkInitStructure checks that the boxes are present that the receiver reads from an init segment.
+func checkInitStructure(init *mp4.InitSegment) error {
+	moov := init.Moov
+	switch {
+	case init.Ftyp == nil:
+		return fmt.Errorf("no ftyp box")
+	case moov.Mvhd == nil:
+		return fmt.Errorf("no mvhd box")
+	case moov.Mvex == nil || moov.Mvex.Trex == nil:
+		return fmt.Errorf("no mvex or trex box")
+	case len(moov.Traks) != 1:
+		return fmt.Errorf("expected one track, got %d", len(moov.Traks))
+	}
+	trak := moov.Traks[0]
+	switch {
+	case trak.Tkhd == nil:
+		return fmt.Errorf("no tkhd box")
+	case trak.Mdia == nil || trak.Mdia.Mdhd == nil || trak.Mdia.Hdlr == nil:
+		return fmt.Errorf("no mdia, mdhd or hdlr box")
+	case trak.Mdia.Minf == nil || trak.Mdia.Minf.Stbl == nil || trak.Mdia.Minf.Stbl.Stsd == nil:
+		return fmt.Errorf("no minf, stbl or stsd box")
+	case len(trak.Mdia.Minf.Stbl.Stsd.Children) == 0:
+		return fmt.Errorf("no sample entry in stsd box")
+	}
+	return nil
 }
 
 func handleMPD(w http.ResponseWriter, req *http.Request, storage, chName string) {
